@@ -68,3 +68,39 @@ M("c20-twin-issubset", "C20", PROJ, "        if not self.columns <= target.colum
 M("c20-twin-difference", "C20", CALC, "        if not (self.expression.columns_required <= target.columns):", "        if self.expression.columns_required - target.columns:", expect="silent")
 M("c20-twin-reorder-checks", "C20", "_operations/_chain.py", "        if lhs.engine != rhs.engine:\n            raise EngineError(f\"Mismatched chain engines: {lhs.engine} != {rhs.engine}.\")\n        if lhs.columns != rhs.columns:\n            raise ColumnError(f\"Mismatched chain columns: {set(lhs.columns)} != {set(rhs.columns)}.\")\n",
   "        if lhs.columns != rhs.columns:\n            raise ColumnError(f\"Mismatched chain columns: {set(lhs.columns)} != {set(rhs.columns)}.\")\n        if not lhs.engine == rhs.engine:\n            raise EngineError(f\"Mismatched chain engines: {lhs.engine} != {rhs.engine}.\")\n", expect="silent")
+
+# ---------------------------------------------------------------- C14 / C15 / C17
+ENG = "_engine.py"
+SEL = "sql/_select.py"
+JOIN = "_operations/_join.py"
+M("c14-transfer-own-engine", ("C14", "C15"), ENG, "        if target.engine == self:\n            if payload is not None:\n                raise EngineError(\"Cannot attach payload to transfer that will be simplified away.\")\n            return target\n", "", rule="R14.2")
+M("c14-transfer-destination", "C14", ENG, "return Transfer(conformed_target, destination=self, payload=payload)", "return Transfer(conformed_target, destination=target.engine, payload=payload)", rule="R14.2")
+M("c14-sql-transfer-wrap", ("C14", "C15"), SQL, "        return self.conform(super().transfer(target, payload))", "        return Select.apply_skip(super().transfer(target, payload))", rule="R14.5")
+M("c14-identity-builds-node", "C14", "_unary_operation.py", "    def _finish_apply(self, target: Relation) -> Relation:\n        # Docstring inherited.\n        return target\n", "", rule="R14.3")
+M("c14-join-drop-engine-check", "C14", JOIN, "        if lhs.engine != rhs.engine:\n            raise EngineError(f\"Mismatched join engines: {lhs.engine} != {rhs.engine}.\")\n", "", rule="R14.2")
+M("c14-join-minmax", "C14", JOIN, "operation = dataclasses.replace(self, min_columns=common_columns, max_columns=common_columns)", "operation = dataclasses.replace(self, min_columns=self.min_columns, max_columns=common_columns)", rule="R14.4")
+M("c14-join-nonkey", "C14", JOIN, "            common_columns = {tag for tag in lhs.columns & rhs.columns if tag.is_key}", "            common_columns = {tag for tag in lhs.columns & rhs.columns}", rule="R14.4")
+M("c14-join-lhs-only", "C14", JOIN, "            common_columns = {tag for tag in lhs.columns & rhs.columns if tag.is_key}", "            common_columns = {tag for tag in lhs.columns if tag.is_key}", rule="R14.4")
+M("c14-unaryrel-engine", "C14", "_operation_relations.py", "        return self.target.engine\n", "        return self.operation.preferred_engine\n", rule="R14.6")
+M("c14-construct-elsewhere", "C14", "_processor.py", "                    return operation.apply(new_target), False", "                    return UnaryOperationRelation(operation=operation, target=new_target, columns=original.columns), False", rule="R14.1")
+M("c14-projection-noop-builds", "C14", "_operations/_projection.py", "        if self.columns == target.columns:\n            return Identity(), target.engine\n", "", rule="R14.5")
+M("c14-sql-identity-wrap", "C14", SQL, "            case Identity():\n                return select\n", "            case Identity():\n                return Select.apply_skip(select)\n", rule="R14.5")
+M("c14-apply-always-append", "C14", "_unary_operation.py", "        if not done:\n            result = result.engine.append_unary(operation, result)\n        return result", "        result = result.engine.append_unary(operation, result)\n        return target.engine.conform(result)", rule="R14.5")
+M("c14-twin-finish", "C14", "_operations/_projection.py", "        if self.columns == target.columns:\n            return target\n        return super()._finish_apply(target)", "        if self.columns != target.columns:\n            return super()._finish_apply(target)\n        return target", expect="silent")
+M("c15-backtrack-no-lock", "C03", IT, "        if tree.is_locked:\n            return tree, False, (f\"{tree} is locked\",)\n", "", rule="R03.2")
+M("c15-simplify-no-lock", "C15", "_transfer.py", "        if target.is_locked:\n            return None\n", "", rule="R15.1")
+M("c15-conform-into-materialization", "C15", SQL, "            case Transfer() | Materialization() | LeafRelation():", "            case Transfer() | LeafRelation():", rule="R15.1")
+M("c15-simplify-wrong-engine", "C15", "_transfer.py", "                if destination == new_target.engine:\n                    return new_target\n                else:\n                    return cls.simplify(new_target, destination)", "                return new_target", rule="R15.2")
+M("c15-mat-simplify-marker", "C15", "_materialization.py", "                if target.engine == new_target.engine:\n                    return cls.simplify(new_target)", "                return cls.simplify(new_target)", rule="R15.2")
+M("c15-materialize-always", "C15", ENG, "        if Materialization.simplify(target):\n            return target\n", "", rule="R15.2")
+M("c15-twin-lock-first", "C15", "_transfer.py", "        if target.is_locked:\n            return None\n", "        if target.is_locked is True:\n            return None\n", expect="silent")
+M("c17-conform-select", "C17", SQL, "            case Select():\n                return relation\n", "            case Select():\n                return Select.apply_skip(relation)\n", rule="R17.1")
+M("c17-conform-order", "C17", SQL, "            case Select():\n                return relation\n            case UnaryOperationRelation(operation=operation, target=target):", "            case UnaryOperationRelation(operation=operation, target=target):", rule="R17.1")
+M("c17-append-unary-raw", "C17", SQL, "        conformed_target = self.conform(target)\n        return self._append_unary_to_select(operation, conformed_target)", "        return operation._finish_apply(target)", rule="R17.2")
+M("c17-apply-skip-order", "C17", SEL, "        if projection is not None:\n            target = projection._finish_apply(target)\n        if deduplication is not None:\n            target = deduplication._finish_apply(target)\n", "        if deduplication is not None:\n            target = deduplication._finish_apply(target)\n        if projection is not None:\n            target = projection._finish_apply(target)\n", rule="R17.3")
+M("c17-apply-skip-on-skipto", "C17", SEL, "            target = deduplication._finish_apply(target)", "            target = deduplication._finish_apply(skip_to)", rule="R17.3")
+M("c17-compound-always", "C17", SEL, "        is_compound = False\n        match skip_to:", "        is_compound = True\n        match skip_to:", rule="R17.3")
+M("c17-reapply-skip-slice", "C17", SEL, "                slice=kwargs.get(\"slice\", self.slice),", "                slice=kwargs.get(\"slice\", None),", rule="R17.3")
+M("c17-reapply-copy", "C17", SEL, "        result = target.engine.conform(target)\n", "        result = dataclasses.replace(self, target=target)\n", rule="R17.3")
+M("c17-ctor-swapped", "C17", SEL, "            sort=sort,\n            slice=slice,\n            skip_to=skip_to,", "            sort=Sort(),\n            slice=slice,\n            skip_to=skip_to,", rule="R17.3")
+M("c17-twin-sort-guard", "C17", SEL, "        if sort.terms:\n", "        if len(sort.terms) > 0:\n", expect="silent")
